@@ -298,21 +298,12 @@ match.  Characters eaten by a failed tag match are *not* rescanned (1326-1334), 
 def dollarTaggedBody (tag : List Nat) :
     Option (Nat × List Nat × List Nat) → List Nat → Except ScanErr (List Nat × List Nat)
   | _, [] => .error ⟨str "Unterminated dollar-quoted, expected $", []⟩
-  | none, [c] =>
-    if c ≠ 36 then pushE [c] (dollarTaggedBody tag none [])
-    else match tag with
-      | [] => pushE [36] (dollarTaggedBody tag none [])
-      | t :: ts => dollarTaggedBody tag (some (t, ts, [36])) []
+  | _, [_] => .error ⟨str "Unterminated dollar-quoted, expected $", []⟩
   | none, c :: c2 :: cs2 =>
     if c ≠ 36 then pushE [c] (dollarTaggedBody tag none (c2 :: cs2))
     else match tag with
       | [] => if c2 = 36 then .ok ([], cs2) else pushE [36] (dollarTaggedBody tag none (c2 :: cs2))
       | t :: ts => dollarTaggedBody tag (some (t, ts, [36])) (c2 :: cs2)
-  | some (t, ts, m), [c] =>
-    if c ≠ t then pushE (m ++ [c]) (dollarTaggedBody tag none [])
-    else match ts with
-      | [] => pushE (m ++ [c]) (dollarTaggedBody tag none [])
-      | t' :: ts' => dollarTaggedBody tag (some (t', ts', m ++ [c])) []
   | some (t, ts, m), c :: c2 :: cs2 =>
     if c ≠ t then pushE (m ++ [c]) (dollarTaggedBody tag none (c2 :: cs2))
     else match ts with
